@@ -1015,4 +1015,225 @@ theorem prepare_from (o : EpochOpts W) (p p1 : Pop W) (ex : ExecState) (rs rs1 :
           refine ⟨((writeBack_sf hbase1 hbase2).trans hP).genomesFrom, ?_⟩
           rw [hPr]; exact hZr
 
+/-! ### counters past the start genome(s) -/
+
+theorem last_is_max {α} (key : α → Int) (l : List α) (h : l.Pairwise (fun a b => key a ≤ key b)) (last : α)
+    (hl : l.getLast? = some last) : ∀ x ∈ l, key x ≤ key last := by
+  obtain ⟨ys, rfl⟩ := List.getLast?_eq_some_iff.mp hl
+  intro x hx
+  rcases List.mem_append.mp hx with hx | hx
+  · exact (List.pairwise_append.mp h).2.2 x hx last (by simp)
+  · simp only [List.mem_singleton] at hx; subst hx; exact Int.le_refl _
+
+theorem foldl_max_ge (ms : List (Module W)) (init : Int) :
+    init ≤ ms.foldl (fun acc m => if m.ctrl.id > acc then m.ctrl.id else acc) init := by
+  induction ms generalizing init with
+  | nil => exact Int.le_refl _
+  | cons m ms ih =>
+    simp only [List.foldl_cons]
+    refine Int.le_trans ?_ (ih _)
+    split <;> omega
+
+theorem lastNodeId_ge (g : Genome W) (ln : Int) (h : g.lastNodeId = .ok ln) (hs : g.nodes.Pairwise (fun a b => a.id ≤ b.id)) :
+    ∀ n ∈ g.nodes, n.id ≤ ln := by
+  unfold Genome.lastNodeId at h
+  split at h
+  · cases h
+  · rename_i last hl
+    simp only [Except.ok.injEq] at h
+    subst h
+    intro n hn
+    exact Int.le_trans (last_is_max (·.id) g.nodes hs last hl n hn) (foldl_max_ge _ _)
+
+theorem nextGeneInnov_gt (g : Genome W) (ni : Int) (h : g.nextGeneInnov = .ok ni) (hs : g.genes.Pairwise (fun a b => a.inn ≤ b.inn)) :
+    ∀ x ∈ g.genes, x.inn ≤ ni - 1 := by
+  unfold Genome.nextGeneInnov at h
+  split at h
+  · cases h
+  · rename_i last hl
+    have hmax := last_is_max (·.inn) g.genes hs last hl
+    split at h
+    · simp only [Except.ok.injEq] at h; subst h
+      intro x hx; have := hmax x hx; omega
+    · simp only [Except.ok.injEq] at h; subst h
+      intro x hx; have := hmax x hx
+      split <;> omega
+
+/-- the counters of a population constructed around a set of genomes are past all of them -/
+theorem inv_of_counters (gs : List (Genome W)) (nextInn nextNode : Int) (hc : ConsistentGenes gs) (hr : ConsistentRoles gs)
+    (hi : ∀ g ∈ gs, ∀ x ∈ g.genes, x.inn ≤ nextInn) (hn : ∀ g ∈ gs, ∀ n ∈ g.nodes, n.id ≤ nextNode) :
+    Inv ({ records := [], nextInn := nextInn, nextNode := nextNode } : Reg W) gs :=
+  { genes := hc, roles := hr,
+    compat := { recs := fun i hi => by simp at hi, innsNodup := by simp, nodesNodup := by simp },
+    above := { inns := fun b hb => by
+                 obtain ⟨g, hg, hb⟩ := List.mem_flatMap.mp hb
+                 obtain ⟨x, hx, rfl⟩ := List.mem_map.mp hb
+                 exact hi g hg x hx,
+               ids := fun r hr' => by
+                 obtain ⟨g, hg, hr'⟩ := List.mem_flatMap.mp hr'
+                 obtain ⟨x, hx, rfl⟩ := List.mem_map.mp hr'
+                 exact hn g hg x hx,
+               recInns := fun k hk => by simp at hk, recNodes := fun k hk => by simp at hk } }
+
+theorem spawnLoop_same (g : Genome W) (n : Nat) (count : Int) (uid : Nat) (rs rs' : List Nat) (orgs : List (Org W))
+    (h : spawnLoop g n count uid rs = .ok (orgs, rs')) : ∀ org ∈ orgs, SameBinds g org.genome := by
+  induction n generalizing count uid rs rs' orgs with
+  | zero => simp only [spawnLoop, Except.ok.injEq, Prod.mk.injEq] at h; obtain ⟨rfl, _⟩ := h; intro _ h; cases h
+  | succ n ih =>
+    unfold spawnLoop at h
+    split at h
+    · cases h
+    · rename_i d hd
+      split at h
+      · cases h
+      · rename_i d' rs1 hw
+        split at h
+        · cases h
+        · rename_i rest rs2 hrest
+          simp only [Except.ok.injEq, Prod.mk.injEq] at h
+          obtain ⟨rfl, _⟩ := h
+          intro org horg
+          rcases List.mem_cons.mp horg with rfl | horg
+          · obtain ⟨a, b⟩ := duplicate_binds _ _ _ hd
+            exact SameBinds.trans ⟨a, b⟩ ((parametric_sameBinds d d' ⟨zero, 0, [], [], zero, zero, zero, zero, zero, zero, zero, zero, zero⟩ one one .gaussian 0 rs rs1).1 hw)
+          · exact ih _ _ _ _ _ hrest org horg
+
+theorem spawn_popC03 (o : EpochOpts W) (g : Genome W) (rs rs' : List Nat) (p : Pop W) (h : spawn o g rs = .ok (p, rs'))
+    (hasc : Ascending g) (hc : ConsistentGenes [g]) (hr : ConsistentRoles [g]) : PopC03 [g] p := by
+  unfold spawn at h
+  split at h
+  · cases h
+  · split at h
+    · cases h
+    · rename_i orgs rs1 hloop
+      split at h
+      · cases h
+      · rename_i ln hln
+        split at h
+        · cases h
+        · rename_i ni hni
+          simp only at h
+          split at h
+          · cases h
+          · rename_i p' hsp
+            simp only [Except.ok.injEq, Prod.mk.injEq] at h
+            obtain ⟨rfl, _⟩ := h
+            have hsame := spawnLoop_same g _ _ _ _ _ _ hloop
+            have hin : ∀ x ∈ orgs, AllB (· ∈ binds [g]) (· ∈ roles [g]) x.genome := fun x hx =>
+              AllB.same (GenomeIn.of_mem (H := [g]) List.mem_cons_self) (hsame x hx)
+            obtain ⟨c1, r1⟩ := speciate_all o _ p' orgs hsp (fun s hs => by cases hs) hin
+            simp only at r1
+            have hinv : Inv ({ records := [], nextInn := ni - 1, nextNode := ln + 1 } : Reg W) [g] :=
+              inv_of_counters [g] _ _ hc hr
+                (fun g' hg' x hx => by simp only [List.mem_singleton] at hg'; subst hg'; exact nextGeneInnov_gt _ _ hni hasc.1 x hx)
+                (fun g' hg' n hn => by
+                  simp only [List.mem_singleton] at hg'; subst hg'
+                  have := lastNodeId_ge _ _ hln hasc.2 n hn; omega)
+            exact ⟨r1 ▸ hinv, c1, by rw [r1]⟩
+
+/-! #### `ReadPopulation` and `NewPopulationRandom` -/
+
+theorem readStep_ge (c : Int × Int) (ln ni : Int) :
+    c.1 ≤ (readStep c ln ni).1 ∧ c.2 ≤ (readStep c ln ni).2 ∧ ln ≤ (readStep c ln ni).1 ∧ ni ≤ (readStep c ln ni).2 := by
+  unfold readStep
+  refine ⟨?_, ?_, ?_, ?_⟩ <;> (simp only; split <;> omega)
+
+theorem readCounters_ge (gs : List (Genome W)) (c : Int × Int) : c.1 ≤ (readCounters gs c).1 ∧ c.2 ≤ (readCounters gs c).2 := by
+  induction gs generalizing c with
+  | nil => exact ⟨Int.le_refl _, Int.le_refl _⟩
+  | cons g gs ih =>
+    unfold readCounters
+    split
+    · rename_i ln ni _ _
+      obtain ⟨a, b, _, _⟩ := readStep_ge c ln ni
+      obtain ⟨a', b'⟩ := ih (readStep c ln ni)
+      exact ⟨Int.le_trans a a', Int.le_trans b b'⟩
+    · exact ih c
+
+/-- the counters `ReadPopulation` ends with are past every genome read (each with at least one node and gene, both
+    ascending - the reader looks at the LAST node / gene only) -/
+theorem readCounters_above (gs : List (Genome W)) (c : Int × Int)
+    (hok : ∀ g ∈ gs, g.nodes ≠ [] ∧ g.genes ≠ [] ∧ Ascending g) :
+    ∀ g ∈ gs, (∀ n ∈ g.nodes, n.id ≤ (readCounters gs c).1) ∧ (∀ x ∈ g.genes, x.inn ≤ (readCounters gs c).2) := by
+  induction gs generalizing c with
+  | nil => intro g hg; cases hg
+  | cons g0 gs ih =>
+    intro g hg
+    obtain ⟨hn0, hg0, hasc⟩ := hok g0 List.mem_cons_self
+    unfold readCounters
+    split
+    · rename_i ln ni hln hni
+      obtain ⟨_, _, s3, s4⟩ := readStep_ge c ln ni
+      obtain ⟨m1, m2⟩ := readCounters_ge gs (readStep c ln ni)
+      rcases List.mem_cons.mp hg with rfl | hg
+      · refine ⟨fun n hn => ?_, fun x hx => ?_⟩
+        · have := lastNodeId_ge _ _ hln hasc.2 n hn; omega
+        · have := nextGeneInnov_gt _ _ hni hasc.1 x hx; omega
+      · exact ih _ (tail_of hok) g hg
+    · rename_i hbad
+      exfalso
+      have h1 : ∃ ln, g0.lastNodeId = .ok ln := by
+        unfold Genome.lastNodeId
+        cases hl : g0.nodes.getLast? with
+        | none => exact absurd (List.getLast?_eq_none_iff.mp hl) hn0
+        | some n => exact ⟨_, rfl⟩
+      have h2 : ∃ ni, g0.nextGeneInnov = .ok ni := by
+        unfold Genome.nextGeneInnov
+        cases hl : g0.genes.getLast? with
+        | none => exact absurd (List.getLast?_eq_none_iff.mp hl) hg0
+        | some n => simp only; split <;> exact ⟨_, rfl⟩
+      obtain ⟨ln, e1⟩ := h1
+      obtain ⟨ni, e2⟩ := h2
+      exact hbad ln ni e1 e2
+
+/-- the counters of `NewPopulationRandom` are past every genome `newGenomeRand` can build -/
+theorem randomCounters_above (nIn nOut mH : Int) (g : Genome W) (h : RandShape nIn nOut mH g) :
+    (∀ n ∈ g.nodes, n.id ≤ (randomCounters nIn nOut mH).1) ∧ (∀ x ∈ g.genes, x.inn ≤ (randomCounters nIn nOut mH).2) := by
+  unfold randomCounters
+  exact ⟨fun n hn => by have := h.2 n hn; simp only; omega, fun x hx => by have := h.1 x hx; simp only; omega⟩
+
+/-! ### whole epochs -/
+
+theorem nextEpoch_c03 (o : EpochOpts W) (gen : Int) (p p' : Pop W) (rs rs' : List Nat) {H : List (Genome W)}
+    (hp : PopC03 H p) (h : nextEpoch o gen p rs = .ok (p', rs')) :
+    ∃ H', Ext H H' ∧ PopC03 H' p' ∧ AllFresh p.reg.nextInn p.reg.nextNode H p'.species ∧ CtrLe p.reg p'.reg := by
+  unfold nextEpoch at h
+  split at h
+  · cases h
+  · rename_i p1 ex rs1 hprep
+    split at h
+    · cases h
+    · rename_i p2 rs2 hrep
+      simp only [Except.ok.injEq, Prod.mk.injEq] at h
+      obtain ⟨rfl, _⟩ := h
+      obtain ⟨hfrom, hreg⟩ := prepare_from o p p1 ex rs rs1 hprep
+      have hp1 : PopC03 H p1 := ⟨hreg ▸ hp.inv, AllOrgs.from hp.cov hfrom, by rw [hreg]; exact hp.norec⟩
+      obtain ⟨H', he, hp', hfr, hc⟩ := reproduce_finalize_c03 o gen p1 p2 ex rs1 rs2 hp1 hrep
+      rw [hreg] at hfr hc
+      exact ⟨H', he, hp', hfr, hc⟩
+
+/-- `n` consecutive epochs of the sequential executor (generation numbers `gen`, `gen+1`, …) -/
+def runEpochs (o : EpochOpts W) : Nat → Int → Pop W → Rand (Pop W)
+  | 0, _, p, rs => .ok (p, rs)
+  | n + 1, gen, p, rs =>
+    match nextEpoch o gen p rs with
+    | .error e => .error e
+    | .ok (p', rs') => runEpochs o n (gen + 1) p' rs'
+
+theorem runEpochs_c03 (o : EpochOpts W) (n : Nat) (gen : Int) (p p' : Pop W) (rs rs' : List Nat) {H : List (Genome W)}
+    (hp : PopC03 H p) (h : runEpochs o n gen p rs = .ok (p', rs')) : ∃ H', Ext H H' ∧ PopC03 H' p' ∧ CtrLe p.reg p'.reg := by
+  induction n generalizing gen p rs H with
+  | zero =>
+    simp only [runEpochs, Except.ok.injEq, Prod.mk.injEq] at h
+    obtain ⟨rfl, _⟩ := h
+    exact ⟨H, .refl _, hp, .refl _⟩
+  | succ n ih =>
+    unfold runEpochs at h
+    split at h
+    · cases h
+    · rename_i p1 rs1 h1
+      obtain ⟨H1, he1, hp1, _, hc1⟩ := nextEpoch_c03 o gen p p1 rs rs1 hp h1
+      obtain ⟨H2, he2, hp2, hc2⟩ := ih _ _ _ hp1 h
+      exact ⟨H2, he1.trans he2, hp2, hc1.trans hc2⟩
+
 end GoNeat.C03
